@@ -15,7 +15,7 @@ import re
 import struct
 import traceback
 
-from ..common import HarnessError, canon, load_impl, show
+from ..common import HarnessError, canon, is_failure_line, load_impl, show
 from ..engine.shard import Acc, Family, digest, split, MAX_SAMPLES_PER_SHARD, MAX_VIOLATIONS_PER_SHARD
 
 LEVEL = 'exploration'
@@ -51,7 +51,6 @@ ASSUMPTIONS = [
 ]
 
 EXCLUDED = ('datetimeNow', 'datetimeToday', 'mathRandom', 'systemFetch')
-FAIL_MARK = ' failed with error: '
 _CACHE = {}
 
 
@@ -213,7 +212,7 @@ def split_logs(logs):
     fails = 0
     other = []
     for line in logs:
-        if isinstance(line, str) and line.startswith('BareScript: Function "') and FAIL_MARK in line:
+        if is_failure_line(line):
             fails += 1
         else:
             other.append(line)
